@@ -308,3 +308,54 @@ _MEMO = [(UC, "def build_unit():", "_parsed = {}\n\ndef build_unit():"),
          (UC, "        return terms[0]\n", "        _parsed[units] = terms[0]\n        return terms[0]\n")]
 mutant('C09', 'parse memo cleared only on named reset', _MEMO + [(UC, "        nu.reset_units('SI')\n        build_unit()\n", "        nu.reset_units('SI')\n        build_unit()\n        _parsed.clear()\n")], None, None, 'DERIVED-STATE')
 benign('C09', 'parse memo cleared on every reset', _MEMO + [(UC, "    # Generate random base working units\n", "    _parsed.clear()\n    # Generate random base working units\n")], None, None)
+
+# ------------------------------------------------------------------ C08
+LD = 'atomman/load/atom_data/load.py'
+L_API = 'atomman/load/atom_data/atoms_prop_info.py'
+L_VPI = 'atomman/load/atom_data/velocities_prop_info.py'
+LDD = 'atomman/load/atom_dump/load.py'
+L_DPI = 'atomman/load/atom_dump/process_prop_info.py'
+LT = 'atomman/load/table/load.py'
+LP = 'atomman/load/poscar/load.py'
+mutant('C08', 'regress hybrid units (load side)', L_API, "subprop_info = atoms_prop_info(substyle, units)", "subprop_info = atoms_prop_info(substyle)", 'TABLES-AGREE')
+mutant('C08', 'reader table: dipole columns reordered', L_API, '"table_name": ["mux", "muy", "muz"]', '"table_name": ["muz", "muy", "mux"]', 'TABLES-AGREE')
+mutant('C08', 'reader velocities: sphere uses ang-mom', L_VPI, "\"unit\": lammps_unit['ang-vel']}]", "\"unit\": lammps_unit['ang-mom']}]", 'TABLES-AGREE')
+mutant('C08', 'reader standard table: force unit', L_DPI, "\"unit\": lammps_unit['force']}", "\"unit\": lammps_unit['energy']}", 'TABLES-AGREE')
+mutant('C08', 'regress-F8 image flags not sorted by id', LD, "            imageflags = imageflags.sort_values('id')\n", "", 'DATA-READ')
+mutant('C08', 'image flag shift subtracted', LD, "system.atoms.pos[:] += shift", "system.atoms.pos[:] -= shift", 'DATA-READ')
+mutant('C08', 'image flag shift uses transposed vectors', LD, ".values.dot(system.box.vects)", ".values.dot(system.box.vects.T)", 'DATA-READ')
+mutant('C08', 'image flags read from wrong columns', LD, "usecols=[0] + list(range(ncols, atomscolumns))", "usecols=[0] + list(range(ncols - 1, atomscolumns - 1))", 'DATA-READ')
+mutant('C08', 'stray column count accepted', LD, "        elif ncols != atomscolumns:\n            raise FileFormatError(f'atom_style={atom_style} requires {ncols} or {ncols+3} Atoms table columns but {atomscolumns} found')\n", "", 'DATA-READ')
+mutant('C08', 'atoms table offset off by one', LD, "atomsstart = i + 1", "atomsstart = i", 'DATA-READ')
+mutant('C08', 'velocities offset off by one', LD, "velocitiesstart = i + 1", "velocitiesstart = i + 2", 'DATA-READ')
+mutant('C08', 'yz tilt read from wrong token', LD, "yz = uc.set_in_units(float(terms[2]), units_dict['length'])", "yz = uc.set_in_units(float(terms[1]), units_dict['length'])", 'DATA-READ')
+mutant('C08', 'zhi not converted', LD, "zhi = uc.set_in_units(float(terms[1]), units_dict['length'])", "zhi = float(terms[1])", 'DATA-READ')
+mutant('C08', 'missing y bounds not refused', LD, "    if ylo is None or yhi is None:\n        raise FileFormatError('ylo, yhi box dimensions missing')\n", "", 'DATA-READ')
+mutant('C08', 'missing natoms not refused', LD, "    if natoms is None:\n        raise FileFormatError('# atoms not found')\n", "", 'DATA-READ')
+mutant('C08', 'missing Atoms section not refused', LD, "    if atomsstart is None:\n        raise FileFormatError('Atoms section missing')\n", "", 'DATA-READ')
+mutant('C08', 'masses by line order', LD, "        masses[atype - 1] = mass", "        masses[masses.index(None)] = mass", 'DATA-READ')
+mutant('C08', 'style conflict silently resolved', LD, "    elif params['atom_style'] is not None and atom_style != params['atom_style']:\n        raise ValueError(f'given atom_style of {atom_style} differs from value of {params[\"atom_style\"]} found in data')\n", "", 'DATA-READ')
+mutant('C08', 'default style full', LD, "            atom_style = 'atomic'\n", "            atom_style = 'full'\n", 'DATA-READ')
+mutant('C08', 'comments inside atoms table not stripped', LD, "nrows=system.natoms, comment='#',\n                        header=None, usecols=range(ncols))", "nrows=system.natoms,\n                        header=None, usecols=range(ncols))", 'DATA-READ')
+mutant('C08', 'velocities read with atoms offset', LD, "prop_info=prop_info, skiprows=velocitiesstart,", "prop_info=prop_info, skiprows=velocitiesstart+1,", 'DATA-READ')
+mutant('C08', 'table: rows not sorted by id', LT, "    if 'id' in df:\n        df = df.sort_values('id')\n", "", 'TABLE-READ')
+mutant('C08', 'table: get instead of set units', LT, "value = uc.set_in_units(value, prop['unit'])", "value = uc.get_in_units(value, prop['unit'])", 'TABLE-READ')
+mutant('C08', 'table: scaled columns not converted', LT, "            if prop['unit'] == \"scaled\":\n                value = system.box.position_relative_to_cartesian(value)\n            else:\n                value = uc.set_in_units(value, prop['unit'])", "            if prop['unit'] != \"scaled\":\n                value = uc.set_in_units(value, prop['unit'])", 'TABLE-READ')
+mutant('C08', 'table: fortran-order reshape', LT, ".values.reshape((natoms,) + prop['shape'])", ".values.reshape((natoms,) + prop['shape'][::-1]).swapaxes(-1, 1) if len(prop['shape']) == 2 else df[prop['table_name']].values.reshape((natoms,) + prop['shape'])", None)
+mutant('C08', 'table: nrows dropped', LT, "nrows=nrows, comment=comment", "comment=comment", 'TABLE-READ')
+mutant('C08', 'dump: xlo recovered with max', LDD, "xlo = xlo - min((0.0, xy, xz, xy + xz))", "xlo = xlo - max((0.0, xy, xz, xy + xz))", 'DUMP-READ')
+mutant('C08', 'dump: yhi recovered with xz', LDD, "yhi = yhi - max((0.0, yz))", "yhi = yhi - max((0.0, xz))", 'DUMP-READ')
+mutant('C08', 'dump: xz and yz swapped', LDD, "                        xz = uc.set_in_units(float(terms[2]),\n                                             lammps_unit['length'])", "                        yz = uc.set_in_units(float(terms[2]),\n                                             lammps_unit['length'])", 'DUMP-READ')
+mutant('C08', 'dump: pbc flags read from front', LDD, "if terms[i + len(terms) - 3] != 'pp':", "if terms[i + 3] != 'pp':", 'DUMP-READ')
+mutant('C08', 'dump: fm treated periodic', LDD, "!= 'pp':", "== 'ff':", 'DUMP-READ')
+mutant('C08', 'dump: table offset', LDD, "                        atomsstart = i + 1", "                        atomsstart = i", 'DUMP-READ')
+mutant('C08', 'dump: bounds not converted', LDD, "zhi = uc.set_in_units(float(terms[1]), lammps_unit['length'])", "zhi = float(terms[1])", 'DUMP-READ')
+mutant('C08', 'regress-F6 poscar cartesian not scaled (load)', LP, "    if scale is False:\n        pos = pos * box_scale\n", "", 'POSCAR-READ')
+mutant('C08', 'poscar: cvect not scaled', LP, "cvect = np.array(lines[4].split(), dtype='float64') * box_scale", "cvect = np.array(lines[4].split(), dtype='float64')", 'POSCAR-READ')
+mutant('C08', 'poscar: types start at 0', LP, "np.full(typenums[i], i+1, dtype='int64')", "np.full(typenums[i], i, dtype='int64')", 'POSCAR-READ')
+mutant('C08', 'poscar: k not cartesian', LP, "if style[0] in 'cCkK':", "if style[0] in 'cC':", 'POSCAR-READ')
+mutant('C08', 'poscar: positions offset by one line', LP, "        start_i = 8", "        start_i = 7", 'POSCAR-READ')
+benign('C08', 'flags sorted with keyword', LD, "imageflags = imageflags.sort_values('id')", "imageflags = imageflags.sort_values(by='id')")
+benign('C08', 'shift via matmul', LD, "shift = imageflags[['bx', 'by', 'bz']].values.dot(system.box.vects)", "shift = np.dot(imageflags[['bx', 'by', 'bz']].values, system.box.vects)")
+benign('C08', 'dump bounds two-arg min', LDD, "ylo = ylo - min((0.0, yz))", "ylo = ylo - min(0.0, yz)")
+benign('C08', 'poscar scale commuted', LP, "pos = pos * box_scale", "pos = box_scale * pos")
